@@ -550,6 +550,118 @@ def size_rules(fb, R):
         R.check(ok, 'S6-padding-zero-filled', PAD, fn.site, 'add_padding must zero-fill exactly the reserved padding bytes')
 
 
+
+# ------------------------------------------------------------------------------------------------ user area layout (S7)
+
+def layout_rules(fb, R):
+    """S7: for EVERY length, the bytes reserved for the user name by the builders (constructor + set_user) equal the offset at
+    which the readers expect the sub-items, the name (with its NUL) fits into them, and what is reserved is what is accounted."""
+    from osmlint.c04_layout import V, Eval, Unknown, lengths, paths, compare
+    RS, ADD = BLD + '::reserve_space', BLD + '::add_size'
+    it = fb.enum('osmium::item_type')
+    itvals = {}
+    if it:
+        for e in it.get('values', it.get('enumerators', [])):
+            itvals[e['name']] = int(e['value'] if 'value' in e else e['v'])
+    targets = []
+    for fn in fb.fns('osmium::builder::OSMObjectBuilder::set_user') + fb.fns('osmium::builder::ChangesetBuilder::set_user'):
+        if len(fn.params) == 2:
+            targets.append(fn)
+    if not targets:
+        R.broken('S7: no set_user(const char*, size_t) body found')
+        return
+    seen = set()
+    for fn in targets:
+        T = fn.cls_targs[1] if fn.cls_targs and len(fn.cls_targs) > 1 else 'osmium::Changeset'
+        key = '%s::set_user<%s>' % (fn.cls, T.rsplit('::', 1)[-1])
+        if key in seen:
+            continue
+        seen.add(key)
+        rcls = 'osmium::Changeset' if T == 'osmium::Changeset' else 'osmium::OSMObject'
+        try:
+            # bytes reserved by the constructor of this builder class (same numbers S3 verifies against the item size)
+            ctors = [c for c in fb.fns(fn.cls + '::(ctor)') if c.cls_targs == fn.cls_targs]
+            if not ctors:
+                raise Unknown('constructor of %s not found' % fn.cls)
+            c = ctors[0]
+            base = [n for n in c.all_nodes() if n.get('k') == 'construct' and n.get('q') == BLD + '::(ctor)']
+            r0 = c.const_value(base[0]['args'][2]) if base and len(base[0].get('args', [])) >= 3 else None
+            extra = [c.const_value(n['args'][0]) for n in _calls(c, {RS}) if (c.sn(n.get('recv')) or {}).get('k') == 'this']
+            if r0 is None or any(v is None for v in extra):
+                raise Unknown('constructor sizes of %s' % fn.cls)
+            ctor_total = r0 + sum(extra)
+            readers_sub = [f for f in fb.fns(rcls + '::subitems_position')]
+            readers_usr = [f for f in fb.fns(rcls + '::user') if not f.params]
+            if not readers_sub or not readers_usr:
+                raise Unknown('reader functions of %s' % rcls)
+            tname = T.rsplit('::', 1)[-1].lower()
+            if rcls == 'osmium::OSMObject' and tname not in itvals:
+                raise Unknown('item_type value of %s' % T)
+            lp = fn.params[1]['d']
+            bad = None
+            nruns = 0
+            for L in lengths():
+                over = {
+                    'osmium::memory::detail::ItemHelper::data': V(0, 0, 1),
+                    'osmium::builder::Builder::item_pos': V(0, 0, 1),
+                }
+
+                def on_call(ev, n, st, fn=fn):
+                    q = n.get('q', '')
+                    if q == RS and (fn.sn(n.get('recv')) or {}).get('k') == 'this':
+                        st.setdefault('reserved', []).append(ev.ev(n['args'][0]))
+                    elif q == ADD and (fn.sn(n.get('recv')) or {}).get('k') == 'this':
+                        st.setdefault('added', []).append(ev.ev(n['args'][0]))
+                    elif q.rsplit('::', 1)[-1] == 'set_user_size':
+                        st.setdefault('usize', []).append(ev.ev(n['args'][0]))
+                    elif q in ('memcpy', 'std::memcpy') and len(n.get('args', [])) == 3:
+                        src = fn.sn(n['args'][1])
+                        if src is not None and src.get('k') == 'var' and src.get('d') == fn.params[0]['d']:
+                            st.setdefault('copy', []).append((ev.ev(n['args'][0]), ev.ev(n['args'][2])))
+                over_w = dict(over)
+                over_w['osmium::builder::OSMObjectBuilder::object'] = V(0, 0, 1)
+                over_w['osmium::builder::ChangesetBuilder::object'] = V(0, 0, 1)
+                ps = paths(fb, fn, {lp: L}, over_w, on_call)
+                for st, _ev in ps:
+                    nruns += 1
+                    res = sum(st.get('reserved', []), V(0))
+                    add = sum(st.get('added', []), V(0))
+                    if len(st.get('usize', [])) != 1 or len(st.get('copy', [])) != 1:
+                        raise Unknown('set_user_size / memcpy of the name not found once on a path of %s' % fn.full)
+                    U = st['usize'][0]
+                    dest, n_copied = st['copy'][0]
+                    total = V(ctor_total) + res
+                    over_r = dict(over)
+                    over_r[rcls + '::user_size'] = U
+                    over_r[('member', 'm_user_size')] = U
+                    over_r['osmium::memory::Item::type'] = V(itvals.get(tname, 0))
+                    rs_ = readers_sub[0]
+                    ret = [x for x in rs_.all_nodes() if x.get('k') == 'return']
+                    sub = Eval(fb, rs_, {}, over_r).ev(ret[0]['sub'])
+                    ru = readers_usr[0]
+                    ret = [x for x in ru.all_nodes() if x.get('k') == 'return']
+                    usr = Eval(fb, ru, {}, over_r).ev(ret[0]['sub'])
+                    if not (res == add):
+                        bad = 'for length=%r set_user reserves %r more bytes but adds %r to the item sizes' % (L, res, add)
+                    elif not (sub == V(0, 0, 1) + total):
+                        bad = ('for length=%r the builder has reserved %r bytes for object+user name, but %s::subitems_position() '
+                               '(user_size=%r) looks for tags/sub-items at offset %r' % (L, total, rcls, U, sub - V(0, 0, 1)))
+                    elif not (dest == usr):
+                        bad = 'the name is copied to offset %r but %s::user() reads it at %r' % (dest - V(0, 0, 1), rcls, usr - V(0, 0, 1))
+                    elif not (n_copied == L):
+                        bad = 'memcpy of the name copies %r bytes for length=%r' % (n_copied, L)
+                    elif compare('<=', dest + n_copied + V(1), V(0, 0, 1) + total) is not True:
+                        bad = 'for length=%r the name and its NUL end at offset %r, beyond the %r reserved bytes' % (L, dest + n_copied + V(1) - V(0, 0, 1), total)
+                    if bad:
+                        break
+                if bad:
+                    break
+            if nruns == 0:
+                raise Unknown('no normal path through %s' % fn.full)
+            R.check(bad is None, 'S7-user-area-matches-reader-layout', key, fn.site, bad or '')
+        except Unknown as e:
+            R.broken('S7 %s: arithmetic not understood (%s)' % (key, e))
+
 # ------------------------------------------------------------------------------------------------ purge_removed
 
 def purge_rules(fb, R):
@@ -731,6 +843,7 @@ def all_rules(fb, R):
     stale_rules(fb, R)
     buffer_rules(fb, R)
     size_rules(fb, R)
+    layout_rules(fb, R)
     purge_rules(fb, R)
     witness_rules(fb, R)
 
@@ -765,6 +878,7 @@ def run(ctx):
     R.expect('S4-appended-bytes-accounted', 6)
     R.expect('S4-reserved-object-accounted', 3)
     R.expect('S4-reserved-bytes-accounted', 2)
+    R.expect('S7-user-area-matches-reader-layout', 5)
     R.expect('S5-destructor-pads', 4)
     R.expect('S5-variable-member-padded', 2)
     R.expect('P1-purge-moves-items', 2)
